@@ -178,7 +178,7 @@ RESOURCE_PAT = re.compile(r'rlimit|resource limit|timed? ?out|memory', re.I)
 
 def classify(msg):
     m = msg.lower()
-    if 'postcondition' in m:
+    if 'postcondition' in m or 'post-condition' in m:
         return 'postcondition'
     if 'precondition' in m:
         return 'precondition'
@@ -225,6 +225,15 @@ def analyse(unit, path, text, regions, res, canary_marks=None):
         in_file = ps is not None and os.path.basename(ps['file_name']) == base
         kind = classify(msg)
         if RESOURCE_PAT.search(msg):
+            if canary_marks is not None:
+                # `false` could not be derived within the resource limit: the canary did its job
+                fnname = enclosing_fn(lines, ps['line_start'] + 1) if ps else '?'
+                if fnname.startswith('canary__'):
+                    for ln in canary_marks:
+                        if ln >= ps['line_start'] and enclosing_fn(lines, ln) == fnname and ln - ps['line_start'] < 400:
+                            canary_hits.add(ln)
+                            break
+                continue
             undecided.append('resource: %s (line %s)' % (msg, ps and ps['line_start']))
             continue
         if d.get('code') or not in_file and kind == 'other':
@@ -235,6 +244,8 @@ def analyse(unit, path, text, regions, res, canary_marks=None):
             undecided.append('unclassified: %s (line %s)' % (msg, ps and ps['line_start']))
             continue
         line = ps['line_start']
+        if canary_marks is not None and not in_file:
+            continue
         if canary_marks is not None:
             if kind == 'postcondition' and line in canary_marks and '/*CANARY*/' in lines[line - 1]:
                 canary_hits.add(line)
@@ -343,7 +354,7 @@ def process_unit(unit, seed, want_canary=True):
                     marks[i] = None
             cpath = os.path.join(BUILD, 'u_' + unit + '_canary.rs')
             open(cpath, 'w').write(ctext)
-            f_can = ex.submit(run_verus, cpath, unit, seed)
+            f_can = ex.submit(run_verus, cpath, unit, seed, 5)
         res = f_main.result()
         cres = f_can.result() if f_can else None
     failures, undecided, _ = analyse(unit, path, text, regions, res)
